@@ -31,7 +31,7 @@ CFG = gens.Cfg(ids=(0, 1, 2), nsyms=2)
 
 def _pool():
     groups, by_label, defs = notations.registry()
-    pool = groups['prop'] + groups['defn'] + groups['extra'] + groups['gen'] + [n for n in groups['kore'] if n.arity <= 3]
+    pool = groups['prop'] + groups['defn'] + groups['extra'] + groups['gen'] + [n for n in groups['kore'] if n.arity <= 3] + groups['wide']
     return pool, by_label, defs
 
 
